@@ -497,6 +497,20 @@ def judge_line(line, answer, train_seqs, props, traced=False):
                 bad("C12", len(ops), "running flag of transceiver %d at the end" % k, int(x.running), f[0])
             if not x.running and (f[3] != "N" and x.fh is None):
                 bad("C12", len(ops), "hopping configuration kept after power-off (trx %d)" % k, "N", f[3])
+            # C05, "documented effect": what the commands of the history did to the transceiver is what the documentation
+            # of each command says (the reference applies exactly that); a group the harness could not read (`drop?`) is skipped
+            fmt = lambda v: "N" if v is None else str(v)
+            want = {"rx": fmt(x.rx), "tx": fmt(x.tx), "fh": "N" if x.fh is None else "%s/%s/%d" % (x.fh[0], x.fh[1], len(x.fh[2])),
+                    "v": "v%d" % x.ver, "m": "m%d" % int(x.muted), "ta": "ta%s" % x.ta, "p": "p%s/%s" % (x.pwr_base, x.att),
+                    "toa": "toa%s/%s" % (x.toa, x.toa_thr), "rssi": "rssi%s/%s/%d" % (x.rssi, x.rssi_thr, int(x.fake_rssi)),
+                    "ci": "ci%s/%s" % (x.ci, x.ci_thr), "drop": "drop%s/%s" % (x.drop_n, x.drop_p)}
+            got = {"rx": f[1], "tx": f[2], "fh": f[3], "v": f[4], "m": f[5], "ta": f[6], "p": f[7], "toa": f[8], "rssi": f[9],
+                   "ci": f[10], "drop": f[11]}
+            for key in ("rx", "tx", "fh", "v", "m", "ta", "p", "toa", "rssi", "ci", "drop"):
+                if got[key].endswith("?"):
+                    continue
+                if got[key] != want[key]:
+                    bad("C05", len(ops), "state of transceiver %d after the commands of the history (%s)" % (k, key), want[key], got[key])
             q = f[-1][1:]
             nq = 0 if q == "-" else len(q.split("/"))
             if nq != len(x.queue):
